@@ -71,10 +71,23 @@ Light ==
       "neg0", "leadzero", "plus", "int:empty", "int:huge", "str:neglen", "str:short",
       "files:1000zero", "files:1000neg" }
 
+\* DECLARED STRING LENGTHS (design model: MetainfoScan.tla).  A bencoded string is <decimal digits> ":" <bytes>; the digits are
+\* attacker-chosen and unbounded, the machine integers that hold the value are not.  tok = the declared value (the payload keeps
+\* its true length n): around the largest accepted value (2^31), around the 32-bit and 64-bit word sizes (values that wrap to
+\* the true length n, to a NEGATIVE length, to minus the width of the prefix = back onto the same token), and beyond (10^30,
+\* forty nines).  pos = which string of the .torrent carries it: the only token of the input ("lone": d<tok>:e), a key / a
+\* value of the outer dictionary, a key of the info dictionary, the pieces string, the name, a path component of a file entry.
+\* Obligation: rejected with an error or parsed - never a crash (C06.crash), a hang (C06.hang) or an allocation of the declared size.
+StrLenToks == {"2^31-1", "2^31", "2^32", "2^32+n", "2^63-1", "2^63", "2^63+n", "2^64-10^6", "2^64-back", "2^64-1", "2^64", "2^64+n",
+               "10^19", "10^30", "9x40"}
+StrLenPos  == {"lone", "topkey", "topval", "infokey", "pieces", "name", "path"}
+StrLenVars == {"strlen:" \o t \o "@" \o p : t \in StrLenToks, p \in StrLenPos}
+StrLenIn   == {"strlen:" \o t \o "@" \o p : t \in StrLenToks, p \in StrLenPos \ {"lone"}}   \* "lone" does not depend on the core
+
 Rep1 == Core("16384", 20, "single", "pl", <<>>, "none")
+Rep2 == Core("16384", 40, "files", "absent", <<"pl", "pl-1">>, "none")
 RepCores ==
-    { Rep1,
-      Core("16384", 40, "files", "absent", <<"pl", "pl-1">>, "none"),
+    { Rep1, Rep2,
       Core("16384", 20, "files", "absent", <<"pl", "1", "-1">>, "neg"),
       Core("1", 20, "single", "1", <<>>, "none"),
       Core("0", 20, "single", "0", <<>>, "none") }
@@ -83,7 +96,7 @@ RepQuick == { c \in RepCores : c.pl = "16384" }
 Cases ==
     LET cores == IF TIER = "quick" THEN QuickCores ELSE ThoroughCores
         reps  == IF TIER = "quick" THEN RepQuick ELSE RepCores
-    IN cores \cup {[c EXCEPT !.var = v] : c \in reps, v \in Light} \cup {[Rep1 EXCEPT !.var = v] : v \in (IF TIER = "quick" THEN Heavy \ {"extra:dictnest3M", "info:nest3M"} ELSE Heavy)}
+    IN cores \cup {[c EXCEPT !.var = v] : c \in reps, v \in Light} \cup {[Rep1 EXCEPT !.var = v] : v \in StrLenVars} \cup {[Rep2 EXCEPT !.var = v] : v \in StrLenIn} \cup {[Rep1 EXCEPT !.var = v] : v \in (IF TIER = "quick" THEN Heavy \ {"extra:dictnest3M", "info:nest3M"} ELSE Heavy)}
 
 (***************************************************************************)
 (* HTTP source (Session.AddURI with an http URL): scripted servers.  One   *)
